@@ -13,6 +13,7 @@ import NeoModel.Proofs.WitnessItems
 import NeoModel.Proofs.WitnessJson
 import NeoModel.Proofs.WitnessEncode
 import NeoModel.Proofs.WitnessSignerItem
+import NeoModel.Proofs.WitnessScopeJson
 import NeoModel.Generated.WitnessConsts
 namespace NeoModel.Witness
 
@@ -117,6 +118,25 @@ example : condFromJ (fun _ => none) 3 (.obj [("type".toList, .num 5)]) = none :=
 example : condFromJ (fun _ => none) 3 (.obj [("type".toList, .str nScriptHash),
     ("hash".toList, .str ("0xa1" ++ String.join (List.replicate 19 "00")).toList)])
     = some (.scriptHash 0xa1) := by rfl   -- the JSON form of a hash is little endian
+
+/-- C15-dec-json-4. The scope of a signer on the JSON path (`ScopesFromString`, a comma-separated list of
+names in any order, with blanks and repetitions) admits exactly the scope bytes of the binary path: every
+accepted string denotes a byte `validScopes` accepts (no unknown bit — there is no name for one — and Global
+only alone), and every such byte is written by `scopesToString` and read back. -/
+theorem json_scopes_same_as_binary :
+    (∀ s r, scopesFromString s = some r → validScopes r = true ∧ r < 256) ∧
+    (∀ b : Fin 256, validScopes b.val = true → scopesFromString (scopesToString b.val) = some b.val) :=
+  ⟨scopesFromString_valid, scopesFromString_toString⟩
+
+/-- the scope names are those of the linked code. -/
+theorem scope_names_regenerated :
+    [snNone, snCalledByEntry, snCustomContracts, snCustomGroups, snRules, snGlobal]
+      = Generated.WitnessConsts.scopeNames.map String.toList := by decide
+
+example : scopesFromString " CustomGroups,CalledByEntry , CalledByEntry".toList = some 0x21 := by decide
+example : scopesFromString "Global, CalledByEntry".toList = none := by decide
+example : scopesFromString "CalledByEntry,".toList = none := by decide          -- the empty name
+example : scopesFromString "None".toList = some 0 := by decide
 
 /-! ### Binary (DecodeBinary ∘ EncodeBinary) for rules and signers -/
 
